@@ -20,7 +20,8 @@ VERIF = Path(__file__).resolve().parent.parent
 REPO = Path(os.environ.get("JUMANJI_REPO", "/repo"))
 LEAN_DIR = VERIF / "lean"
 DRIVER_BIN = LEAN_DIR / ".lake" / "build" / "bin" / "driver"
-EVIDENCE_DIR = VERIF / "evidence"
+# VERIF_EVIDENCE_DIR: used by tools/seedtest.py so that runs against patched scratch trees never touch the committed evidence
+EVIDENCE_DIR = Path(os.environ["VERIF_EVIDENCE_DIR"]) if os.environ.get("VERIF_EVIDENCE_DIR") else VERIF / "evidence"
 REPLAY_DIR = VERIF / "replays"
 KNOWN_FINDINGS = VERIF / "known_findings.json"
 GEN_DIR = LEAN_DIR / "JumanjiModel" / "Gen"
